@@ -14,7 +14,7 @@ from vf.pyvc import extract
 MOD = "debian.deb822"
 KEYS = ["a", "A", "b", "B", "c", "Xy", "xY", "XY", "Vcs_Git", "VcsBrowser", "vcs-git", "a_b", "aB", "a^",
         # characters next to the letters in ASCII are not case variants of each other; case variants may differ in length
-        "X-Cfg[", "X-Cfg{", "x-cfg[", "X@", "X`", "\u0130ndex", "i\u0307ndex"]
+        "X-Cfg[", "X-Cfg{", "x-cfg[", "X@", "X`", "\u0130ndex", "i\u0307ndex", "xy", "vcs_git", "vcsbrowser", "ab"]
 
 
 def find(model, k):
@@ -568,6 +568,17 @@ def run(ctx):
                     else:
                         del model[i]
                     del d[k]
+                elif op == "get" and find(model, k) < 0 and rng.random() < 0.5:
+                    # the key object a failed look-up reports is handed back to the mapping: the field is spelled as it was asked for
+                    ops.append(["get of a missing key, then assignment under the key the KeyError carries", k])
+                    try:
+                        d[k]
+                        t.failed("look-up of a missing key did not raise KeyError", operations=ops)
+                        break
+                    except KeyError as e_:
+                        handed = e_.args[0] if e_.args else k
+                    d[handed] = "from-keyerror"
+                    model.append((k, "from-keyerror"))
                 elif op == "get":
                     ops.append(["get", k])
                     if find(model, k) < 0:
